@@ -129,7 +129,7 @@ OPTSETS = [dict(), dict(reindent=True), dict(reindent_aligned=True), dict(strip_
            dict(reindent=True, compact=True), dict(reindent=True, indent_tabs=True, indent_after_first=True)]
 ACC = ['get_type', 'get_name', 'get_alias', 'get_real_name', 'get_parent_name', 'has_alias', 'get_identifiers', 'get_parameters',
        'get_window', 'get_cases', 'get_typecast', 'get_ordering', 'get_array_indices', 'is_wildcard', 'is_multiline']
-LEX = ['select ', 'x', ' ', ',', '(', ')', 'f(', ' as ', ' where ', '1', '=', '-- c\n', ';', 'case ', ' end', 'a.b',
+LEX = ['select ', 'x', ' ', ',', '(', ')', 'f(', ' as ', 'case when a end ', "x'", 'f( )', ' where ', '1', '=', '-- c\n', ';', 'case ', ' end', 'a.b',
        ' from ', ' order by ', "'s'", '::', '+', '/* c */', '[1]', ' over ', ' asc', 'begin ', 'if ', ' end if',
        ' when ', ' then ', '*', "'", '"', '[', ']', ' in ', 'values ', ' union ', ':=', 'date ', ' join ', ' on ']
 NLEXEME = 16
